@@ -413,19 +413,22 @@ Proof.
   intros Hs Hk. unfold known_c01 in Hk. cbv zeta in Hk. rewrite cleaned_spec_clean in Hk.
   destruct (spec_scheme_some_leading _ _ _ Hs) as [E1 E2]. rewrite E1, E2 in Hk.
   change s_file with str_file in Hk. rewrite special_name in Hk.
-  destruct (list_eqb sch str_file); [discriminate Hk|]. cbn [orb] in Hk. split; [reflexivity | exact Hk].
+  destruct (list_eqb sch str_file); [discriminate Hk|]. cbn [orb andb] in Hk. split; [reflexivity | exact Hk].
 Qed.
 
-(* a base, no scheme in the reference *)
+(* a base, no scheme in the reference: the reference is bare (empty, '?...', '#...'), or the base is not
+   file and the reference is outside classes 2-4 *)
 Lemma known_exact_base_noscheme b input :
   spec_scheme (spec_clean input) = None -> known_c01 (Some b) input = 0 ->
-  list_eqb (b_scheme b) str_file = false
-  /\ k_relative (is_special_scheme (b_scheme b)) b (spec_clean input) = 0.
+  k_bare_ref (spec_clean input) = true
+  \/ (list_eqb (b_scheme b) str_file = false
+      /\ k_relative (is_special_scheme (b_scheme b)) b (spec_clean input) = 0).
 Proof.
   intros Hs Hk. unfold known_c01 in Hk. cbv zeta in Hk. rewrite cleaned_spec_clean in Hk.
   rewrite (spec_scheme_none_leading _ Hs) in Hk.
   change s_file with str_file in Hk. rewrite special_name in Hk.
-  destruct (list_eqb (b_scheme b) str_file); [discriminate Hk|]. cbn [orb] in Hk. split; [reflexivity | exact Hk].
+  destruct (k_bare_ref (spec_clean input)); [left; reflexivity | right].
+  destruct (list_eqb (b_scheme b) str_file); [discriminate Hk|]. cbn [orb andb] in Hk. split; [reflexivity | exact Hk].
 Qed.
 
 (* a base, a scheme in the reference *)
@@ -438,7 +441,7 @@ Proof.
   intros Hs Hk. unfold known_c01 in Hk. cbv zeta in Hk. rewrite cleaned_spec_clean in Hk.
   destruct (spec_scheme_some_leading _ _ _ Hs) as [E1 E2]. rewrite E1, E2 in Hk.
   change s_file with str_file in Hk. rewrite special_name in Hk.
-  destruct (list_eqb sch str_file); [discriminate Hk|]. cbn [orb] in Hk. split; [reflexivity | exact Hk].
+  destruct (list_eqb sch str_file); [discriminate Hk|]. cbn [orb andb] in Hk. split; [reflexivity | exact Hk].
 Qed.
 
 (* with a scheme of its own and the base ignored, the base does not matter to Known_C01 *)
@@ -450,5 +453,5 @@ Proof.
   intros Hs Hi Hk. destruct (known_exact_base_scheme b input sch R Hs Hk) as [Hf Hr]. rewrite Hi in Hr.
   unfold known_c01. cbv zeta. rewrite cleaned_spec_clean.
   destruct (spec_scheme_some_leading _ _ _ Hs) as [E1 E2]. rewrite E1, E2.
-  change s_file with str_file. rewrite special_name, Hf. cbn [orb]. exact Hr.
+  change s_file with str_file. rewrite special_name, Hf. cbn [orb andb]. exact Hr.
 Qed.
